@@ -37,13 +37,15 @@ def is_copier(call: ast.Call) -> bool:
 
 
 class Site:
-    def __init__(self, mod: Module, fn_qual: str, node: ast.AST, source: str, how: str, via: Tuple[str, ...] = ()):
+    def __init__(self, mod: Module, fn_qual: str, node: ast.AST, source: str, how: str, via: Tuple[str, ...] = (), root=None):
         self.mod = mod
         self.fn_qual = fn_qual
         self.node = node
         self.source = source
         self.how = how
         self.via = via
+        # the primitive write this mutation ultimately is: (module name, function qualname, parameter, node)
+        self.root = root or (mod.name, fn_qual, source, node)
 
     def at(self) -> str:
         return f"{self.mod.rel}:{getattr(self.node, 'lineno', 0)}"
@@ -54,7 +56,12 @@ class Site:
 
 class Effects:
     def __init__(self, repo: Repo, max_depth: int = 4,
-                 dynamic: Optional[Callable[[Module, ast.Call], Optional[List[Tuple[Module, str, ast.FunctionDef]]]]] = None):
+                 dynamic: Optional[Callable[[Module, ast.Call], Optional[List[Tuple[Module, str, ast.FunctionDef]]]]] = None,
+                 mode: str = "contents"):
+        """mode 'contents': field-insensitive aliasing through containers (conservative, for small self-contained modules);
+        mode 'paths': only access paths rooted at a parameter (subscripts/attributes/element iteration/resolved callees) — no flow
+        through fresh containers and unknown library calls (fewer false alarms on large closures)"""
+        self.mode = mode
         self.repo = repo
         self.max_depth = max_depth
         self.dynamic = dynamic
@@ -74,6 +81,18 @@ class Effects:
         """names of parameters whose object (or something inside it) `expr` may be (not through copiers)"""
         out = set()
         summary = self._summary_fn(mod)
+        if self.mode == "paths":
+            def summ2(call):
+                last = call.func.attr if isinstance(call.func, ast.Attribute) else (dotted(call.func) or "")
+                if mod is not None:
+                    r = self.repo.resolve_call(mod, call)
+                    if r and isinstance(r[2], FuncT):
+                        return self.returns_alias_of(r[0], r[2], call)
+                return None
+            for k, n in self.prov(fn).roots(expr, is_fresh=lambda cl: is_copier(cl) or is_shallow(cl), call_summary=summ2):
+                if k == "param":
+                    out.add(n.arg)  # type: ignore[attr-defined]
+            return out
         for k, n in self.prov(fn).aliases(expr, False, is_fresh=is_copier, call_summary=summary, is_shallow=is_shallow):
             if k == "param":
                 out.add(n.arg)  # type: ignore[attr-defined]
@@ -110,6 +129,13 @@ class Effects:
                     vals.append(n.value)
                 for v in vals:
                     ps |= self.param_sources(cfn, v, cm)
+                    if self.mode == "paths":
+                        # a returned/yielded tuple or list: any element rooted at a parameter
+                        for el in ast.walk(v):
+                            if isinstance(el, (ast.Tuple, ast.List)):
+                                for x in el.elts:
+                                    ps |= self.param_sources(cfn, x, cm)
+                        continue
                     # contents of what is returned may alias params as well
                     for k2, n2 in self.prov(cfn).aliases(v, True, is_fresh=is_copier, call_summary=self._summary_fn(cm), is_shallow=is_shallow):
                         if k2 == "param":
@@ -145,9 +171,9 @@ class Effects:
         self._active.add(id(fn))
         res: Dict[str, List[Site]] = {}
 
-        def hit(expr: ast.AST, node: ast.AST, how: str, via: Tuple[str, ...] = ()):
+        def hit(expr: ast.AST, node: ast.AST, how: str, via: Tuple[str, ...] = (), root=None):
             for p in self.param_sources(fn, expr, mod):
-                res.setdefault(p, []).append(Site(mod, qual, node, p, how, via))
+                res.setdefault(p, []).append(Site(mod, qual, node, p, how, via, root))
 
         for n in walk_no_nested(fn):
             if isinstance(n, (ast.Assign, ast.AugAssign, ast.AnnAssign)):
@@ -185,9 +211,10 @@ class Effects:
                     if not summ:
                         continue
                     pnames = [a.arg for a in cfn.args.posonlyargs + cfn.args.args]
-                    is_method = bool(pnames) and pnames[0] in ("self", "cls") and isinstance(f, ast.Attribute)
+                    is_ctor = cq.endswith(".__init__") and not (isinstance(f, ast.Attribute) and f.attr == "__init__")
+                    is_method = bool(pnames) and pnames[0] in ("self", "cls") and isinstance(f, ast.Attribute) and not is_ctor
                     bound: Dict[str, ast.AST] = {}
-                    pos = pnames[1:] if is_method else pnames
+                    pos = pnames[1:] if (is_method or is_ctor) else pnames
                     if is_method:
                         bound[pnames[0]] = f.value  # type: ignore[union-attr]
                     for i, a in enumerate(n.args):
@@ -200,8 +227,14 @@ class Effects:
                             bound[k.arg] = k.value
                     for pname, sites in summ.items():
                         if pname in bound:
-                            hit(bound[pname], n, f"call `{norm(n)[:70]}` ({cq} mutates its `{pname}`: {sites[0].at()} {sites[0].how})",
-                                (cq,) + sites[0].via)
+                            seen_roots = set()
+                            for s_ in sites:
+                                rk = s_.root[:3]
+                                if rk in seen_roots:
+                                    continue
+                                seen_roots.add(rk)
+                                hit(bound[pname], n, f"call `{norm(n)[:70]}` ({cq} mutates its `{pname}`: {s_.at()} {s_.how})",
+                                    (cq,) + s_.via, s_.root)
         self._active.discard(id(fn))
         self._memo[id(fn)] = res
         return res
